@@ -23,7 +23,12 @@ def scenarios(seed, tier):
     n = 250 if tier == 'quick' else 2500
     rnd = random.Random(seed * 7919 + 18)
     for i in range(n):
-        s = gen.gen_portfolio(random.Random(rnd.getrandbits(48)), tmax=8 if tier == 'quick' else 14, allow_mip=False, tz_prob=0.05,
+        # every fifth case on a zone-aware grid, half of them across a daylight-saving switch (a repeated or missing local hour)
+        import pandas as pd
+        dstc = (i % 5 == 1)
+        s = gen.gen_portfolio(random.Random(rnd.getrandbits(48)), tmax=(8 if not dstc else 11) if tier == 'quick' else 14, allow_mip=False,
+                              tz_prob=0.05 if not dstc else 1.0, tmin=2 if not dstc else 8,
+                              grids=None if not dstc else [('h', 'h', pd.Timedelta(hours=1)), ('h', 'h', pd.Timedelta(hours=1)), ('2h', 'h', pd.Timedelta(hours=2))],
                               kinds=['simple', 'contract', 'transport', 'ext_transport', 'storage', 'storage2', 'multi', 'orderbook', 'scaled', 'structured'])
         if i % 3 == 2:
             # uncoupled portfolio, also run split (some with nothing active in the first part of the horizon)
